@@ -568,6 +568,14 @@ fn schema_family(out: &mut Out) {
             lists.push(vec![a.clone(), b.clone()]);
         }
     }
+    // all orders of the three primary components, alone and with a literal in between
+    let prim = [C::Var(Var::Major), C::Var(Var::Minor), C::Var(Var::Patch)];
+    for perm in [[0, 1, 2], [0, 2, 1], [1, 0, 2], [1, 2, 0], [2, 0, 1], [2, 1, 0]] {
+        lists.push(vec![prim[perm[0]].clone(), prim[perm[1]].clone(), prim[perm[2]].clone()]);
+        lists.push(vec![prim[perm[0]].clone(), C::Str("x".into()), prim[perm[1]].clone(), C::UInt(1), prim[perm[2]].clone()]);
+    }
+    let n_small = lists.len();
+    let rank = |v: &Var| match v { Var::Major => 0, Var::Minor => 1, Var::Patch => 2, _ => 9 };
     let primary = |v: &Var| matches!(v, Var::Major | Var::Minor | Var::Patch);
     let secondary = |v: &Var| matches!(v, Var::Epoch | Var::PreRelease | Var::Post | Var::Dev);
     let ts_ok = |c: &C| match c {
@@ -579,7 +587,7 @@ fn schema_family(out: &mut Out) {
     let step = lists.len() / 12 + 1;
     for (i, core) in lists.iter().enumerate() {
         for (j, extra) in lists.iter().enumerate() {
-            if (i + j) % step != 0 && !(i < 14 && j < 14) {
+            if (i + j) % step != 0 && !(i < 14 && j < 14) && !(i + 12 >= n_small && j < 3) {
                 continue;
             }
             for build in [&lists[0], &lists[1], &lists[4], &lists[8], &lists[12]] {
@@ -591,6 +599,7 @@ fn schema_family(out: &mut Out) {
                 let rules = !(core.is_empty() && extra.is_empty() && build.is_empty())
                     && core.iter().chain(extra.iter()).chain(build.iter()).all(ts_ok)
                     && !cv.iter().any(secondary) && !dup(&cv, &primary)
+                    && { let ps: Vec<i32> = cv.iter().filter(|v| primary(v)).map(rank).collect(); ps.windows(2).all(|w| w[0] < w[1]) }
                     && !ev.iter().any(primary) && !dup(&ev, &secondary)
                     && !bv.iter().any(|v| primary(v) || secondary(v));
                 if ok && !rules {
@@ -603,8 +612,9 @@ fn schema_family(out: &mut Out) {
 
 // ------------------------------------------------------------------ parts recomposition
 
-fn parts_family(out: &mut Out) {
-    for s in ["1.2.3", "1.2.3-alpha.1", "1.2.3+b.7", "0.0.0-rc.1.x+meta.5.z", "10.20.30-0a.b-c"] {
+fn parts_family(out: &mut Out, semver: bool) {
+    if semver {
+    for s in ["1.2.3", "1.2.3-alpha.1", "1.2.3+b.7", "0.0.0-rc.1.x+meta.5.z", "10.20.30-0a.b-c", "1.2.3+Feature.X", "1.0.0-SNAPSHOT", "2.0.0-rc.1+JIRA.1234.gABC123", "1.0.0-B.a+A.b"] {
         out.cases += 1;
         let v = SemVer::from_str(s).unwrap();
         let mut r = v.to_base_part();
@@ -626,7 +636,9 @@ fn parts_family(out: &mut Out) {
             out.cex("semver_parts", format!("docker form of {s} = {:?}, expected {docker:?}", v.to_docker_format()));
         }
     }
-    for s in ["1.2.3", "2!1.0a1", "1.0.post2.dev3", "1.0rc1.post2.dev3+ubuntu.20", "1.0+a.1"] {
+    return;
+    }
+    for s in ["1.2.3", "2!1.0a1", "1.0.post2.dev3", "1.0rc1.post2.dev3+ubuntu.20", "1.0+a.1", "1!2.3.4b5", "0.1.dev0", "3.post0+local.7"] {
         out.cases += 1;
         let v = PEP440::from_str(s).unwrap();
         let mut r = v.to_base_part();
@@ -701,7 +713,8 @@ fn main() {
         "presets_tier" => tier_family(&mut out),
         "timestamp" => timestamp_family(&mut out),
         "schema_validate" => schema_family(&mut out),
-        "semver_parts" | "pep440_display" => parts_family(&mut out),
+        "semver_parts" => parts_family(&mut out, true),
+        "pep440_display" => parts_family(&mut out, false),
         "resolve_barrier" => barrier_family(&mut out),
         _ => {
             eprintln!("unknown family {fam}");
